@@ -47,6 +47,8 @@ type (
 		MaxLength            *int     `json:"maxLength,omitempty" yaml:"maxLength,omitempty"`
 		MinItems             *int     `json:"minItems,omitempty" yaml:"minItems,omitempty"`
 		MaxItems             *int     `json:"maxItems,omitempty" yaml:"maxItems,omitempty"`
+		MinProperties        *int     `json:"minProperties,omitempty" yaml:"minProperties,omitempty"`
+		MaxProperties        *int     `json:"maxProperties,omitempty" yaml:"maxProperties,omitempty"`
 		Required             []string `json:"required,omitempty" yaml:"required,omitempty"`
 		AdditionalProperties any      `json:"additionalProperties,omitempty" yaml:"additionalProperties,omitempty"`
 
@@ -633,6 +635,8 @@ func (s *Schema) Dup() *Schema {
 		MaxLength:            s.MaxLength,
 		MinItems:             s.MinItems,
 		MaxItems:             s.MaxItems,
+		MinProperties:        s.MinProperties,
+		MaxProperties:        s.MaxProperties,
 		Required:             s.Required,
 		AdditionalProperties: s.AdditionalProperties,
 	}
@@ -689,16 +693,23 @@ func initAttributeValidation(s *Schema, at *expr.AttributeExpr) {
 		s.Maximum = val.Maximum
 	}
 	if val.MinLength != nil {
-		if _, ok := at.Type.(*expr.Array); ok {
+		switch at.Type.(type) {
+		case *expr.Array:
 			s.MinItems = val.MinLength
-		} else {
+		case *expr.Map:
+			// minLength only applies to strings
+			s.MinProperties = val.MinLength
+		default:
 			s.MinLength = val.MinLength
 		}
 	}
 	if val.MaxLength != nil {
-		if _, ok := at.Type.(*expr.Array); ok {
+		switch at.Type.(type) {
+		case *expr.Array:
 			s.MaxItems = val.MaxLength
-		} else {
+		case *expr.Map:
+			s.MaxProperties = val.MaxLength
+		default:
 			s.MaxLength = val.MaxLength
 		}
 	}
